@@ -35,6 +35,10 @@ var c27groups = []c27group{
 	{"nested-class-parent-outside", "class Sizer\n  def size\n    1\n  end\nend\nmodule Tagged\n  def tag\n    :sym\n  end\nend\nclass Outer\n  class Inner < Sizer\n    include Tagged\n    def val\n      size\n    end\n  end\nend\n",
 		[]string{"i = %Q%Outer::Inner.new", "dbtp i.val", "dbtp i.size", "dbtp i.tag", "i.nope"},
 		"class Sizer\n  def size\n    \"s\"\n  end\nend\nmodule Tagged\n  def tag\n    [1]\n  end\nend\n"},
+	// methods that instances inherit from the configured Object class, inside and outside the group's own methods
+	{"object-methods", "class Alpha\n  def val\n    1\n  end\n\n  def show\n    to_s\n  end\nend\nclass Beta < Alpha\nend\n",
+		[]string{"a = %Q%Alpha.new", "b = %Q%Beta.new", "dbtp a.to_s", "dbtp a.inspect", "dbtp a.nil?", "dbtp a == b", "dbtp b.is_a?(%Q%Alpha)", "dbtp b.to_s", "dbtp a.show", "dbtp b.frozen?", "a.nope"},
+		"class Alpha\n  def to_s\n    1\n  end\n\n  def inspect\n    :sym\n  end\nend\n"},
 	{"classmethod-chain", "class Alpha\n  def self.build\n    Beta.new\n  end\nend\nclass Beta\n  def run\n    \"s\"\n  end\nend\n",
 		[]string{"r = %Q%Alpha.build", "dbtp r.run", "r.nope", "%Q%Beta.build"},
 		"class Beta\n  def run\n    1\n  end\n\n  def self.build\n    1\n  end\nend\n"},
